@@ -21,6 +21,8 @@ pub struct Binder {
     pub program_relations: Vec<String>,
     /// column lists of base tables, when the caller knows the schema (empty: base tables are open)
     pub base_tables: Vec<(String, Vec<String>)>,
+    /// T-SQL: there is no RECURSIVE keyword, and every CTE may refer to itself
+    pub no_recursive_keyword: bool,
 }
 
 fn ident_value(v: &J) -> Option<String> {
@@ -91,7 +93,13 @@ impl Binder {
     fn query(&mut self, q: &J, outer: &[Rel]) -> Option<Vec<String>> {
         let mark = self.ctes.len();
         if let Some(w) = q.get("with").filter(|w| !w.is_null()) {
-            let recursive = w["recursive"].as_bool().unwrap_or(false);
+            let mut recursive = w["recursive"].as_bool().unwrap_or(false);
+            if self.no_recursive_keyword {
+                if recursive {
+                    self.err("dialect-has-no-recursive-keyword", "WITH RECURSIVE: the dialect has no RECURSIVE keyword (a CTE may refer to itself without it)".into());
+                }
+                recursive = true;
+            }
             let mut names_here: Vec<String> = vec![];
             for cte in w["cte_tables"].as_array().cloned().unwrap_or_default() {
                 let name = ident_value(&cte["alias"]["name"]).unwrap_or_default();
@@ -435,7 +443,7 @@ pub fn output_columns(sql: &str, d: prqlc::sql::Dialect, schema: &[(&str, &[&str
         return None;
     }
     let v = serde_json::to_value(&stmts[0]).ok()?;
-    let mut b = Binder { fold_case: true, base_tables: schema.iter().map(|(n, c)| (n.to_string(), c.iter().map(|x| x.to_string()).collect())).collect(), ..Default::default() };
+    let mut b = Binder { fold_case: true, base_tables: schema.iter().map(|(n, c)| (n.to_string(), c.iter().map(|x| x.to_string()).collect())).collect(), no_recursive_keyword: d == prqlc::sql::Dialect::MsSql, ..Default::default() };
     b.query(v.get("Query")?, &[])
 }
 
@@ -452,7 +460,7 @@ pub fn check_sql_with(sql: &str, d: prqlc::sql::Dialect, lets: &[String]) -> Vec
         Ok(v) => v,
         Err(e) => return vec![("machinery".into(), e.to_string())],
     };
-    let mut b = Binder { fold_case: true, program_relations: lets.to_vec(), ..Default::default() };
+    let mut b = Binder { fold_case: true, program_relations: lets.to_vec(), no_recursive_keyword: d == prqlc::sql::Dialect::MsSql, ..Default::default() };
     b.statement(&v);
     b.errs
 }
